@@ -498,6 +498,26 @@ func (t *Table) DeleteRows(startIndex, endIndex int) error {
 	return nil
 }
 
+// ensureGrid 保证表格网格存在且至少有 colCount 列。
+// 打开的文档中表格可能没有 w:tblGrid（或列数不足），列操作依赖该网格；
+// 缺少的列宽取自第一行对应单元格的宽度，没有宽度时为 0。
+func (t *Table) ensureGrid(colCount int) {
+	if t.Grid == nil {
+		t.Grid = &TableGrid{}
+	}
+	for len(t.Grid.Cols) < colCount {
+		width := "0"
+		idx := len(t.Grid.Cols)
+		if len(t.Rows) > 0 && idx < len(t.Rows[0].Cells) {
+			props := t.Rows[0].Cells[idx].Properties
+			if props != nil && props.TableCellW != nil && props.TableCellW.W != "" {
+				width = props.TableCellW.W
+			}
+		}
+		t.Grid.Cols = append(t.Grid.Cols, TableGridCol{W: width})
+	}
+}
+
 // InsertColumn 在指定位置插入列
 func (t *Table) InsertColumn(position int, data []string, width int) error {
 	if len(t.Rows) == 0 {
@@ -514,6 +534,7 @@ func (t *Table) InsertColumn(position int, data []string, width int) error {
 	}
 
 	// 更新表格网格
+	t.ensureGrid(colCount)
 	newGridCol := TableGridCol{
 		W: fmt.Sprintf("%d", width),
 	}
@@ -592,6 +613,7 @@ func (t *Table) DeleteColumn(colIndex int) error {
 	}
 
 	// 删除网格列
+	t.ensureGrid(colCount)
 	t.Grid.Cols = append(t.Grid.Cols[:colIndex], t.Grid.Cols[colIndex+1:]...)
 
 	// 删除每行的对应单元格
@@ -620,6 +642,7 @@ func (t *Table) DeleteColumns(startIndex, endIndex int) error {
 	}
 
 	// 删除网格列范围
+	t.ensureGrid(colCount)
 	t.Grid.Cols = append(t.Grid.Cols[:startIndex], t.Grid.Cols[endIndex+1:]...)
 
 	// 删除每行的对应单元格范围
